@@ -1,5 +1,260 @@
-/- C12 — property theorems only. -/
+/-
+C12 — tile queries and tile dependency graphs are complete.
+
+Property theorems only (helpers in `Lemmas/C12.lean`).  Tilings are those of C04 (regular and
+variable, `Tiling.WF`); pixel coordinates are exact rationals.
+
+"Intersects" is positive-area overlap: tile `(r, c)` *meets* a box when it owns an image pixel
+whose open unit square meets the open box (`TileMeets`).  Tiles that merely touch the query
+along an edge are not returned by the code (the test-suite pins this: the extent of tile
+`(0,0)` queries to `[(0,0)]`), so nothing is claimed for degenerate (zero-area) queries.
+-/
 import OdcGeo.Model.C12
+import OdcGeo.Lemmas.C12
+import OdcGeo.Props.C04
+import Mathlib.Tactic.Linarith
+import Mathlib.Algebra.Order.Field.Rat
 namespace OdcGeo.C12
+open OdcGeo OdcGeo.C17 OdcGeo.C04
+
+/-- pixel `j` (the unit interval `(j, j+1)`) meets the open span `(a1, a2)` -/
+def PixMeets (a1 a2 : Rat) (j : Int) : Prop := (j : Rat) < a2 ∧ a1 < (j : Rat) + 1
+
+/-- `_clamp`: for an image of `N ≥ 1` pixels the clamped pixel range is inside the image and
+contains every image pixel that meets the span. -/
+theorem clampSpan_covers (a1 a2 : Rat) (N : Int) (hN : 1 ≤ N) :
+    ∃ p q, clampSpan a1 a2 N = .ok (p, q) ∧ (0 ≤ p ∧ p ≤ N - 1) ∧ (0 ≤ q ∧ q ≤ N - 1) ∧
+      ∀ j : Int, 0 ≤ j ∧ j < N → PixMeets a1 a2 j → p ≤ j ∧ j ≤ q := by
+  have hc : clampSpan a1 a2 N = .ok
+      (if a1.floor < 0 then 0 else if a1.floor > N - 1 then N - 1 else a1.floor,
+       (if a2.ceil < 1 then 1 else if a2.ceil > N then N else a2.ceil) - 1) := by
+    simp only [clampSpan, clamp_ok _ 0 (N - 1) (by omega), clamp_ok _ 1 N hN, bind,
+      Except.bind, pure, Except.pure]
+  refine ⟨_, _, hc, ?_, ?_, ?_⟩
+  · split <;> [omega; (split <;> omega)]
+  · split <;> [omega; (split <;> omega)]
+  · intro j hj hm
+    have h1 : a1.floor < j + 1 := by
+      rw [Rat.floor_lt_iff]; push_cast; exact hm.2
+    have h2 : j < a2.ceil := by
+      rw [Rat.lt_ceil_iff]; exact hm.1
+    constructor
+    · split <;> [omega; (split <;> omega)]
+    · split <;> [omega; (split <;> omega)]
+
+/-- **range_superset** (one axis; regular and variable tiles): the tile range computed from a
+span contains every tile owning an image pixel that meets the span. -/
+theorem range_superset_axis (t : Tiling) (hw : t.WF) (N : Int) (hN : 1 ≤ N) (hb : t.base = N)
+    (a1 a2 : Rat) (p q : Int) (hc : clampSpan a1 a2 N = .ok (p, q))
+    (i : Int) (hi : 0 ≤ i ∧ i < t.count) (s : NSlice) (hs : t.getItem (.idx i) = .ok s)
+    (j : Int) (hj : 0 ≤ j ∧ j < N) (hsj : s.Has j) (hm : PixMeets a1 a2 j) :
+    ∃ t1 t2, t.locate p = .ok t1 ∧ t.locate q = .ok t2 ∧ t1 ≤ i ∧ i ≤ t2 := by
+  obtain ⟨p', q', hc', hp, hq, hcov⟩ := clampSpan_covers a1 a2 N hN
+  rw [hc] at hc'
+  cases hc'
+  obtain ⟨hpj, hjq⟩ := hcov j hj hm
+  obtain ⟨t1, _, l1, _, _, _⟩ := Tiling.locate_spec t hw p (by omega)
+  obtain ⟨t2, _, l2, _, _, _⟩ := Tiling.locate_spec t hw q (by omega)
+  obtain ⟨ij, sj, lj, bj, gj, mj⟩ := Tiling.locate_spec t hw j (by omega)
+  -- `i` is the tile located for `j`
+  have hij : ij = i := by
+    by_contra hne
+    rcases Int.lt_or_gt_of_ne hne with h | h
+    · have := Tiling.region_order t hw ij i bj hi h sj s gj hs j j mj hsj; omega
+    · have := Tiling.region_order t hw i ij hi bj h s sj hs gj j j hsj mj; omega
+  subst hij
+  exact ⟨t1, t2, l1, l2,
+    Tiling.locate_mono t hw p j ⟨hp.1, hpj⟩ (by omega) t1 ij l1 lj,
+    Tiling.locate_mono t hw j q ⟨hj.1, hjq⟩ (by omega) ij t2 lj l2⟩
+
+/-- a tiled GeoBox is well formed: both axes are, the tiling covers the image, the image is
+not empty -/
+structure GBT.WF (g : GBT) : Prop where
+  y : g.tiles.y.WF
+  x : g.tiles.x.WF
+  by_ : g.tiles.y.base = g.ny
+  bx : g.tiles.x.base = g.nx
+  ny : 1 ≤ g.ny
+  nx : 1 ≤ g.nx
+
+/-- tile `(r, c)` owns an image pixel whose unit square meets the (open) box -/
+def TileMeets (g : GBT) (b : BBox) (rc : Int × Int) : Prop :=
+  (0 ≤ rc.1 ∧ rc.1 < g.tiles.y.count) ∧ (0 ≤ rc.2 ∧ rc.2 < g.tiles.x.count) ∧
+  ∃ sy sx jy jx, g.tiles.y.getItem (.idx rc.1) = .ok sy ∧ g.tiles.x.getItem (.idx rc.2) = .ok sx ∧
+    sy.Has jy ∧ sx.Has jx ∧ (0 ≤ jy ∧ jy < g.ny) ∧ (0 ≤ jx ∧ jx < g.nx) ∧
+    PixMeets b.y1 b.y2 jy ∧ PixMeets b.x1 b.x2 jx
+
+/-- **range_superset**: `range_from_bbox` succeeds and its ranges contain every tile whose
+pixel rectangle meets the query box (clamped to the image); hence the candidate list does. -/
+theorem range_superset (g : GBT) (hg : g.WF) (b : BBox) :
+    ∃ r1 r2 c1 c2, rangeFromBBox g b = .ok ((r1, r2), (c1, c2)) ∧
+      candidates g b = .ok (product (irange r1 r2) (irange c1 c2)) ∧
+      ∀ rc, TileMeets g b rc → (r1 ≤ rc.1 ∧ rc.1 ≤ r2) ∧ (c1 ≤ rc.2 ∧ rc.2 ≤ c2) := by
+  obtain ⟨px1, px2, hcx, hpx1, hpx2, _⟩ := clampSpan_covers b.x1 b.x2 g.nx hg.nx
+  obtain ⟨py1, py2, hcy, hpy1, hpy2, _⟩ := clampSpan_covers b.y1 b.y2 g.ny hg.ny
+  obtain ⟨r1, _, lr1, _, _, _⟩ := Tiling.locate_spec g.tiles.y hg.y py1 (by rw [hg.by_]; omega)
+  obtain ⟨r2, _, lr2, _, _, _⟩ := Tiling.locate_spec g.tiles.y hg.y py2 (by rw [hg.by_]; omega)
+  obtain ⟨c1, _, lc1, _, _, _⟩ := Tiling.locate_spec g.tiles.x hg.x px1 (by rw [hg.bx]; omega)
+  obtain ⟨c2, _, lc2, _, _, _⟩ := Tiling.locate_spec g.tiles.x hg.x px2 (by rw [hg.bx]; omega)
+  have hr : rangeFromBBox g b = .ok ((r1, r2), (c1, c2)) := by
+    simp only [rangeFromBBox, hcx, hcy, locate2, zip2, lr1, lr2, lc1, lc2, bind, Except.bind, pure,
+      Except.pure]
+  refine ⟨r1, r2, c1, c2, hr, by simp only [candidates, hr, bind, Except.bind, pure, Except.pure], ?_⟩
+  rintro ⟨r, c⟩ ⟨hr', hc', sy, sx, jy, jx, gy, gx, my, mx, bjy, bjx, pmy, pmx⟩
+  obtain ⟨a1, a2, e1, e2, o1, o2⟩ := range_superset_axis g.tiles.y hg.y g.ny hg.ny hg.by_ b.y1 b.y2
+    py1 py2 hcy r hr' sy gy jy bjy my pmy
+  obtain ⟨d1, d2, f1, f2, o3, o4⟩ := range_superset_axis g.tiles.x hg.x g.nx hg.nx hg.bx b.x1 b.x2
+    px1 px2 hcx c hc' sx gx jx bjx mx pmx
+  rw [lr1] at e1; rw [lr2] at e2; rw [lc1] at f1; rw [lc2] at f2
+  cases e1; cases e2; cases f1; cases f2
+  exact ⟨⟨o1, o2⟩, o3, o4⟩
+
+/-- pixel-space box queries (as repaired) return every tile meeting the box … -/
+theorem tiles_pix_complete (g : GBT) (hg : g.WF) (b : BBox) :
+    ∃ l, tilesFromPixBBox g b = .ok l ∧ ∀ rc, TileMeets g b rc → rc ∈ l := by
+  simp only [tilesFromPixBBox]
+  by_cases hout : b.x2 ≤ 0 ∨ b.x1 ≥ g.nx ∨ b.y2 ≤ 0 ∨ b.y1 ≥ g.ny
+  · rw [if_pos hout]
+    refine ⟨[], rfl, ?_⟩
+    rintro rc ⟨_, _, sy, sx, jy, jx, _, _, _, _, bjy, bjx, pmy, pmx⟩
+    exfalso
+    simp only [PixMeets] at pmy pmx
+    have h1 : (0 : Rat) ≤ jy := by exact_mod_cast bjy.1
+    have h2 : (jy : Rat) + 1 ≤ g.ny := by exact_mod_cast (by omega : jy + 1 ≤ g.ny)
+    have h3 : (0 : Rat) ≤ jx := by exact_mod_cast bjx.1
+    have h4 : (jx : Rat) + 1 ≤ g.nx := by exact_mod_cast (by omega : jx + 1 ≤ g.nx)
+    rcases hout with h | h | h | h <;> linarith [pmy.1, pmy.2, pmx.1, pmx.2]
+  · rw [if_neg hout]
+    obtain ⟨r1, r2, c1, c2, _, hc, hsup⟩ := range_superset g hg b
+    refine ⟨_, hc, ?_⟩
+    intro rc hm
+    rw [mem_product, mem_irange, mem_irange]
+    exact hsup rc hm
+
+/-- … and nothing at all for a box that does not overlap the image (F15 repaired: the
+clamped edge tiles are no longer returned). -/
+theorem tiles_pix_outside_empty (g : GBT) (b : BBox)
+    (hout : b.x2 ≤ 0 ∨ b.x1 ≥ g.nx ∨ b.y2 ≤ 0 ∨ b.y1 ≥ g.ny) : tilesFromPixBBox g b = .ok [] := by
+  simp only [tilesFromPixBBox]; rw [if_pos hout]
+
+/-- **tiles_geom_exact**: a geometry query returns exactly the candidates of its bounding box
+that shapely does not call disjoint – so (with `range_superset`, and shapely's contract that a
+footprint overlapping the query is not disjoint from it) every intersecting tile and only
+intersecting tiles. -/
+theorem tiles_geom_exact (g : GBT) (hg : g.WF) (b : BBox) (disjoint : Int × Int → Bool) :
+    ∃ c l, candidates g b = .ok c ∧ tilesGeom g b disjoint = .ok l ∧
+      (∀ rc, rc ∈ l ↔ rc ∈ c ∧ disjoint rc = false) ∧
+      (∀ rc, TileMeets g b rc → disjoint rc = false → rc ∈ l) := by
+  obtain ⟨r1, r2, c1, c2, _, hc, hsup⟩ := range_superset g hg b
+  have hl : tilesGeom g b disjoint =
+      .ok ((product (irange r1 r2) (irange c1 c2)).filter fun idx => !disjoint idx) := by
+    simp only [tilesGeom, hc, bind, Except.bind, pure, Except.pure]
+  refine ⟨_, _, hc, hl, ?_, ?_⟩
+  · intro rc; simp [List.mem_filter]
+  · intro rc hm hd
+    simp only [List.mem_filter, mem_product, mem_irange]
+    exact ⟨hsup rc hm, by simp [hd]⟩
+
+/-! ## the linear path -/
+
+/-- the rounded image box of a tile contains the image of every point of the tile
+(scale + translation maps) -/
+theorem transform_round_contains (A : Aff) (hb : A.b = 0) (hd : A.d = 0) (tb : BBox) (u v : Rat)
+    (hu : tb.x1 ≤ u ∧ u ≤ tb.x2) (hv : tb.y1 ≤ v ∧ v ≤ tb.y2) :
+    ((tb.transform A).round.x1 ≤ A.a * u + A.c ∧ A.a * u + A.c ≤ (tb.transform A).round.x2) ∧
+    ((tb.transform A).round.y1 ≤ A.e * v + A.f ∧ A.e * v + A.f ≤ (tb.transform A).round.y2) := by
+  obtain ⟨x1, x2⟩ := scale_between A.a A.c tb.x1 tb.x2 u hu
+  obtain ⟨y1, y2⟩ := scale_between A.e A.f tb.y1 tb.y2 v hv
+  simp only [BBox.transform, BBox.round, Aff.apply, hb, hd, zero_mul, add_zero, zero_add]
+  have m1 := min4_le (A.a * tb.x1 + A.c) (A.a * tb.x1 + A.c) (A.a * tb.x2 + A.c) (A.a * tb.x2 + A.c)
+  have m2 := le_max4 (A.a * tb.x1 + A.c) (A.a * tb.x1 + A.c) (A.a * tb.x2 + A.c) (A.a * tb.x2 + A.c)
+  have m3 := min4_le (A.e * tb.y1 + A.f) (A.e * tb.y2 + A.f) (A.e * tb.y1 + A.f) (A.e * tb.y2 + A.f)
+  have m4 := le_max4 (A.e * tb.y1 + A.f) (A.e * tb.y2 + A.f) (A.e * tb.y1 + A.f) (A.e * tb.y2 + A.f)
+  have f1 := Rat.floor_le (min4 (A.a * tb.x1 + A.c) (A.a * tb.x1 + A.c) (A.a * tb.x2 + A.c) (A.a * tb.x2 + A.c))
+  have f2 := @Rat.le_ceil (max4 (A.a * tb.x1 + A.c) (A.a * tb.x1 + A.c) (A.a * tb.x2 + A.c) (A.a * tb.x2 + A.c))
+  have f3 := Rat.floor_le (min4 (A.e * tb.y1 + A.f) (A.e * tb.y2 + A.f) (A.e * tb.y1 + A.f) (A.e * tb.y2 + A.f))
+  have f4 := @Rat.le_ceil (max4 (A.e * tb.y1 + A.f) (A.e * tb.y2 + A.f) (A.e * tb.y1 + A.f) (A.e * tb.y2 + A.f))
+  refine ⟨⟨?_, ?_⟩, ?_, ?_⟩
+  · rcases min_le_iff.1 x1 with h | h <;> linarith [m1.1, m1.2.2.1]
+  · rcases le_max_iff.1 x2 with h | h <;> linarith [m2.1, m2.2.2.1]
+  · rcases min_le_iff.1 y1 with h | h <;> linarith [m3.1, m3.2.1]
+  · rcases le_max_iff.1 y2 with h | h <;> linarith [m4.1, m4.2.1]
+
+/-- **linear_deps_complete**: on the linear path (snapped scale + translation map `A` from
+destination to source pixels, mirrored axes included) the dependencies of destination tile
+`idx` contain every source tile `rc` owning a pixel `(jx, jy)` whose open unit square contains
+the image of a point `(u, v)` of the destination tile – i.e. every source tile whose footprint
+overlaps the tile's with non-empty interior. -/
+theorem linear_deps_complete (dst src : GBT) (hs : src.WF) (A : Aff) (hb : A.b = 0) (hd : A.d = 0)
+    (idx : Int × Int) (tb : BBox) (htb : pixBBox dst idx = .ok tb)
+    (rc : Int × Int) (hr : 0 ≤ rc.1 ∧ rc.1 < src.tiles.y.count) (hc : 0 ≤ rc.2 ∧ rc.2 < src.tiles.x.count)
+    (sy sx : NSlice) (gy : src.tiles.y.getItem (.idx rc.1) = .ok sy)
+    (gx : src.tiles.x.getItem (.idx rc.2) = .ok sx)
+    (jy jx : Int) (my : sy.Has jy) (mx : sx.Has jx) (bjy : 0 ≤ jy ∧ jy < src.ny)
+    (bjx : 0 ≤ jx ∧ jx < src.nx) (u v : Rat)
+    (hu : tb.x1 ≤ u ∧ u ≤ tb.x2) (hv : tb.y1 ≤ v ∧ v ≤ tb.y2)
+    (hx : (jx : Rat) < A.a * u + A.c ∧ A.a * u + A.c < jx + 1)
+    (hy : (jy : Rat) < A.e * v + A.f ∧ A.e * v + A.f < jy + 1) :
+    ∃ l, linearDeps dst src A idx = .ok l ∧ rc ∈ l := by
+  obtain ⟨⟨x1, x2⟩, y1, y2⟩ := transform_round_contains A hb hd tb u v hu hv
+  obtain ⟨l, hl, hall⟩ := tiles_pix_complete src hs (tb.transform A).round
+  refine ⟨l, by simp only [linearDeps, htb, hl, bind, Except.bind], hall rc ?_⟩
+  exact ⟨hr, hc, sy, sx, jy, jx, gy, gx, my, mx, bjy, bjx,
+    ⟨by linarith [hy.1], by linarith [hy.2]⟩, ⟨by linarith [hx.1], by linarith [hx.2]⟩⟩
+
+/-- **linear_disjoint_empty** (F15 repaired): a destination tile whose rounded image box has
+no overlap with the source image depends on no source tile (before the repair the clamped
+edge tiles were returned, see `DESIGN.md` §5 F15). -/
+theorem linear_disjoint_empty (dst src : GBT) (A : Aff) (idx : Int × Int) (tb : BBox)
+    (htb : pixBBox dst idx = .ok tb)
+    (hout : (tb.transform A).round.x2 ≤ 0 ∨ (tb.transform A).round.x1 ≥ src.nx ∨
+            (tb.transform A).round.y2 ≤ 0 ∨ (tb.transform A).round.y1 ≥ src.ny) :
+    linearDeps dst src A idx = .ok [] := by
+  simp only [linearDeps, htb, bind, Except.bind]
+  exact tiles_pix_outside_empty src _ hout
+
+/-! ## the general path -/
+
+/-- **general_deps_complete_partial**: the control flow of the general path drops nothing:
+if the (re)projected footprints handed to `tiles()` are supersets of the true ones – so that
+an overlapping destination tile `d` is a non-disjoint candidate for the source footprint and an
+overlapping source tile `s` a non-disjoint candidate for `d`'s extent – then `s ∈ deps d`.
+Partial: the footprint-superset hypothesis itself (pyproj, densification, the 2-pixel buffer of
+`footprint(4326, 2)`) is assumed, not proved; it is sampled by the harness oracle. -/
+theorem general_deps_complete_partial (dstCand : List (Int × Int)) (dstDisjoint : Int × Int → Bool)
+    (srcCand : Int × Int → List (Int × Int)) (srcDisjoint : Int × Int → Int × Int → Bool)
+    (d s : Int × Int) (hd : d ∈ dstCand) (hdd : dstDisjoint d = false)
+    (hs : s ∈ srcCand d) (hsd : srcDisjoint d s = false) :
+    ∃ deps, (d, deps) ∈ gridIntersectGeneral dstCand dstDisjoint srcCand srcDisjoint ∧ s ∈ deps := by
+  refine ⟨(srcCand d).filter fun s => !srcDisjoint d s, ?_, ?_⟩
+  · simp only [gridIntersectGeneral, List.mem_map, List.mem_filter]
+    exact ⟨d, ⟨hd, by simp [hdd]⟩, rfl⟩
+  · simp only [List.mem_filter]
+    exact ⟨hs, by simp [hsd]⟩
+
+/-- the general path lists only destination tiles that shapely does not call disjoint from
+the source footprint: for disjoint rasters (every candidate disjoint) the graph is empty. -/
+theorem general_disjoint_empty (dstCand : List (Int × Int)) (dstDisjoint : Int × Int → Bool)
+    (srcCand : Int × Int → List (Int × Int)) (srcDisjoint : Int × Int → Int × Int → Bool)
+    (h : ∀ d ∈ dstCand, dstDisjoint d = true) :
+    gridIntersectGeneral dstCand dstDisjoint srcCand srcDisjoint = [] := by
+  simp only [gridIntersectGeneral, List.map_eq_nil_iff, List.filter_eq_nil_iff]
+  intro d hd
+  simp [h d hd]
+
+/-! ## hypotheses are satisfiable; the defect F15 in the unrepaired query -/
+
+/-- the 20×20 image of 10×10 tiles used below -/
+def g20 : GBT := ⟨20, 20, ⟨.reg 20 10, .reg 20 10⟩⟩
+
+example : g20.WF := ⟨by show (0:Int) < 10; decide, by show (0:Int) < 10; decide, rfl, rfl, by decide, by decide⟩
+example : tilesFromPixBBox g20 ⟨5, 5, 15, 6⟩ = .ok [(0, 0), (0, 1)] := by decide
+
+/-- F15: `range_from_bbox` alone (what the pixel-box query used before the repair) answers a
+box far outside the image with the nearest edge tile – `candidates` is not empty there, which
+is why `_tiles_from_pix_bbox` must test for an empty overlap first. -/
+theorem clamped_candidates_outside_cex :
+    candidates g20 ⟨100, 100, 120, 120⟩ = .ok [(1, 1)] ∧
+    tilesFromPixBBox g20 ⟨100, 100, 120, 120⟩ = .ok [] := by decide
 
 end OdcGeo.C12
